@@ -54,11 +54,11 @@ int _GD_AsciiOpen(int fd, struct gd_raw_file_* file, gd_type_t type gd_unused_,
 }
 
 off64_t _GD_AsciiSeek(struct gd_raw_file_* file, off64_t count,
-    gd_type_t data_type gd_unused_, unsigned int mode)
+    gd_type_t data_type, unsigned int mode)
 {
   char line[64];
 
-  dtrace("%p, %" PRId64 ", <unused>, 0x%X", file, (int64_t)count, mode);
+  dtrace("%p, %" PRId64 ", 0x%X, 0x%X", file, (int64_t)count, data_type, mode);
 
   /* a negative position is the pseudo-position before the frame offset: it
    * says nothing about where the stream is */
@@ -72,7 +72,9 @@ off64_t _GD_AsciiSeek(struct gd_raw_file_* file, off64_t count,
       break;
 
   if (mode & GD_FILE_WRITE && count > file->pos) {
-    strcpy(line, "0\n");
+    /* pad with zeros -- a complex sample has two parts on its line, and the
+     * reader insists on both */
+    strcpy(line, (data_type & GD_COMPLEX) ? "0;0\n" : "0\n");
     for (; count > file->pos; ++file->pos)
       fputs(line, (FILE *)file->edata);
   }
